@@ -205,4 +205,58 @@ def reformatMsa (o : Opts) (infmt outfmt : String) (src : Bytes) : Option Bytes 
     if ms.isEmpty || (decide (ms.length > 1) && !isMultiRecord outfmt) then none
     else (ms.mapM fun m => (transform o m).bind (writeOne o outfmt)).map List.flatten
 
+/-! ## unaligned output from an alignment file: `esl-reformat fasta <alignment file>`
+
+`esl_sqfile_Open` on an alignment format reads whole alignments in text mode (`esl_msafile_Read`) and hands them out row by
+row through `esl_sq_FetchFromMSA` (C15's `fetchFromMSA`: gap characters `-_.~` removed, per-residue annotation dealigned in
+parallel); the tool converts `sq->seq`, renames, and `esl_sqascii_WriteFasta` prints `>name[ acc][ desc]` and 60 residues per
+line.  `--gapsym`, `--mingap`, `--nogap`, `--keeprf`, `--namelen` are not looked at on this branch. -/
+
+/-- `for (pos = 0; pos < n; pos += 60) { strncpy(buf, seq+pos, 60); fprintf("%s\n", buf); }` -/
+def seqLines (w : Nat) : Nat → Bytes → List Bytes
+  | 0, _ => []
+  | fuel + 1, s => if s.isEmpty then [] else s.take w :: seqLines w fuel (s.drop w)
+
+/-- `esl_sqascii_WriteFasta` -/
+def fastaRecordB (name acc desc seq : Bytes) : Bytes :=
+  [62] ++ name ++ (if acc.isEmpty then [] else 32 :: acc) ++ (if desc.isEmpty then [] else 32 :: desc) ++ [10]
+  ++ (seqLines 60 seq.length seq).flatMap (· ++ [10])
+
+/-- the `symconvert(sq->seq, …)` calls of the sequence branch, in order (no `--gapsym` here) -/
+def convertSeq (o : Opts) (s : Bytes) : Bytes :=
+  let f (old new : Bytes) (s : Bytes) : Bytes := s.map (symconvB old new)
+  let s := match o.replace with | some (a, b) => f a b s | none => s
+  let s := if o.lower then f upperB lowerB s else s
+  let s := if o.upper then f lowerB upperB s else s
+  let s := if o.rna then f (str "Tt") (str "Uu") s else s
+  let s := if o.dna then f (str "Uu") (str "Tt") s else s
+  let s := if o.iupacN then f (str "RYMKSWHBVDrymkswhbvd") (str "NNNNNNNNNNnnnnnnnnnn") s else s
+  if o.xbad then f (str "Xx") (str "Nn") s else s
+
+/-- every sequence of every alignment of the file, in file order -/
+def fetchAll (ms : List FMsa) : List EaselModel.Msa.Fetched :=
+  ms.flatMap fun m => (List.range m.nseq).filterMap (EaselModel.Msa.fetchFromMSA (toT m))
+
+/-- `--fullwuss` dies on a structure line that is not WUSS; the other two WUSS options cannot fail and do not show in FASTA -/
+def ssAcceptable (o : Opts) (q : EaselModel.Msa.Fetched) : Bool :=
+  if o.fullwuss then
+    match q.ss with
+    | some s =>
+      let s := if o.wussify then EaselModel.Msa.kh2wuss s else s
+      let s := if o.dewuss then EaselModel.Msa.wuss2kh s else s
+      (match EaselModel.Msa.wussFull s with | .ok _ => true | .error _ => false)
+    | none => true
+  else true
+
+/-- stdout of `esl-reformat [options] --informat <alignment format> fasta <file>` -/
+def reformatMsaToFasta (o : Opts) (infmt : String) (src : Bytes) : Option Bytes :=
+  match readFile infmt src with
+  | none => none
+  | some ms =>
+    let qs := fetchAll ms
+    if qs.isEmpty || !qs.all (ssAcceptable o) then none
+    else some ((qs.mapIdx fun i q =>
+      let name := match o.rename with | some s => s ++ [46] ++ natDec (i + 1) | none => q.name
+      fastaRecordB name q.acc q.desc (convertSeq o q.seq)).flatten)
+
 end EaselModel.Miniapps.Ali
